@@ -11,6 +11,12 @@ PROPS = {
         "assumptions": [RFC_TABLES, "OCT_EXP/OCT_LOG/OCTET_MUL/nibble tables are read from the compiled crate by the translator on every run; the correspondence is exhaustive (every row of every operation and table), not sampled"],
         "explanation": "exhaustive: all 256^2 pairs of mul/div/add, fma for 6 accumulators x all pairs, all 258 alpha exponents, all three derived tables; 256^3 triples for associativity/distributivity are covered by the Field instance (theorem) and replayed directly on the implementation",
     },
+    "C15": {
+        "thm_modules": ["Rq.Thm.C15", "Rq.Thm.Tables"],
+        "engines": [("params", "release"), ("params", "debug"), ("tables", "release")],
+        "modelled": ["u32 arithmetic as naturals with explicit wrap (release) / error (checked build)", "the `for`/`while` loops of enc_indices as fuel recursion (termination is theorem skipPi_terminates)"],
+        "assumptions": [RFC_TABLES, "systematic constants: exhaustive over K = 0..56404; tuples: boundary-directed + random X per sampled Table-2 row, in a checked and an unchecked build"],
+    },
     "C13": {
         "thm_modules": ["Rq.Thm.C13"],
         "engines": [("wire", "release")],
